@@ -702,6 +702,15 @@ fn hist(reg: &[Entry], script: &str) -> String {
                     Err(_) => return "err-len".into(),
                 }
             }
+            "r" if f.len() == 5 => {
+                let Some(k) = unhex(f[4]) else { return "bad-op".into() };
+                match special::route_instance(f[2], f[3], &k) {
+                    Some(o) => {
+                        inst.insert(f[1].into(), o);
+                    }
+                    None => return "err-len".into(),
+                }
+            }
             "c" if f.len() == 3 => {
                 let Some(c) = inst.get(f[2]).and_then(|o| o.try_clone()) else { return "noclone".into() };
                 inst.insert(f[1].into(), c);
